@@ -340,7 +340,7 @@ func init() {
 	fw.Register(&fw.Prop{
 		ID:    "C08",
 		Level: "exploration",
-		Rule: "PRNG files from the C01 generator (optional fields vary between neighbours); per file 4 configurations: the 8 skip-flag combinations swept systematically, predicates {none installed, all, none, alternating, pos mod 3, four-rejected-one-accepted, only tagless, only tagged, only big} per element type, decoders {1,3,8}. " +
+		Rule: "PRNG files from the C01 generator (optional fields vary between neighbours); per file 4 configurations: the 8 skip-flag combinations swept systematically, predicates {none installed, all, none, alternating, pos mod 3, four-rejected-one-accepted, only tagless, only tagged, only big} per element type, decoders {1,3,8}; every second configuration with a consumer that appends to the lists of each returned object at once (ownership: no other returned object may change). " +
 			"Signature = (skip mask, predicate per type, which memory-reuse neighbour patterns occur: rejected-with-tags→accepted-without, rejected-with-children→accepted-with-fewer, rejected-with-metadata→accepted-without); distinct_nontrivial counts distinct signatures.",
 		Assumptions: []string{
 			"predicates are pure functions of the element's file position and content and never retain their argument",
